@@ -521,8 +521,12 @@ __gmp_doprnt (const struct doprnt_funs_t *funs, void *data,
             break;
 
           case '+':
+            param.sign = '+';
+            break;
           case ' ':
-            param.sign = fchar;
+            /* C99: a space flag is ignored when '+' is also given */
+            if (param.sign == '\0')
+              param.sign = ' ';
             break;
 
           case '-':
